@@ -28,12 +28,19 @@ NOTES["C07"] = dict(
 NOTES["C02"] = dict(
     text=("Lean theorems over an arbitrary commutative (semi)ring: each kernel (append, append_T, append_neg, append_neg_T, CSR row kernels, "
           "residual, mult_T) returns b +/- A x entry by entry for lists of any length; the action equals the dense image times x; storage order "
-          "and format are irrelevant (conversions are permutations of the entry list). The distributed operations are tied by correspondence: "
-          "results of mult/mult_append/mult_T/residual on every generated layout (default, explicit, empty ranks, columns without rows), standard "
-          "and topology-aware, equal the product with the global triplets bit for bit. " 
+          "and format are irrelevant (conversions are permutations of the entry list). Distributed operations (Props/C02Par.lean, Model/ParSpmv.lean): for ANY list of "
+          "per-rank blocks (any number of ranks, empty ranks, any row/column/halo maps, duplicates, any storage order) whose local indices lie "
+          "inside their maps and whose global rows (for mult_T: owned columns) are held once, mult / mult_append / residual / mult_T give, row by "
+          "row, the product of the global entry list with the global vector (parMult_global, parMultAppend_global, parResidual_global, "
+          "parMultT_global), hence the same vector for every partition of the same matrix (parMult_layout_indep); the halo values are a "
+          "parameter constrained to the owners' values (C03's theorems). Tie: the harness dumps the real per-rank blocks and maps of every "
+          "ParCOO/ParCSR/ParCSC object; the driver evaluates the theorems' hypotheses on them, runs the block-level model rank by rank against "
+          "the real results (standard and topology-aware), and compares with the product of the global triplets bit for bit on every generated "
+          "layout (default, explicit, empty ranks, columns without rows). " 
           "Block variant: products mult/mult_append/mult_T/residual of ParBSR matrices (block sizes 1..3, incl. rectangular blocks) against the global product."),
     note=("Trusted: Lean kernel + standard axioms; exact arithmetic (rounding/reassociation outside the theorem; runs use integer-valued data); "
-          "the distributed algorithm itself is validated per input, not proved for all layouts, at this commit."),
+          "the halo exchange is a parameter of the distributed theorems (its delivery is C03's theorem and, per run, C03's check); "
+          "block (BSR) distributed products are compared with the global product only (no block-level model)."),
     technique="Lean 4 proof (induction over entry lists) on an executable model; exact differential runs against the real kernels and ParMatrix operations",
 )
 NOTES["C06"] = dict(
